@@ -127,7 +127,10 @@ def main(argv):
     for r in main_runs:
         lm = r["asm"]["linemap"]
         for oid, info in lm["obligations"].items():
-            if matches(oid, include) and not matches(oid, exclude):
+            # a named obligation inside injected proof text (tagged invariant / assert / lemma call) belongs to whoever claims the
+            # function's body obligations
+            via_body = info.get("kind") == "hint" and matches(f"{info['unit']}.{info['fn']}.body", include)
+            if (matches(oid, include) or via_body) and not matches(oid, exclude):
                 obligations[oid] = dict(info, group=r["group"])
         for oid, msgs in r["cls"]["failed"].items():
             if oid in obligations or (matches(oid, include) and not matches(oid, exclude)):
@@ -135,6 +138,15 @@ def main(argv):
         for oid, msgs in r["cls"]["rlimit"].items():
             if matches(oid, include) and not matches(oid, exclude):
                 undecided.append(f"rlimit exceeded on {oid}")
+        # proof artifacts: only when NO program-level / contract obligation of the same function fails
+        for fnid, msgs in r["cls"].get("artifact", {}).items():
+            if not matches(fnid + ".body", include) or matches(fnid + ".body", exclude):
+                continue
+            if any(o.startswith(fnid + ".") for o in r["cls"]["failed"]):
+                continue
+            first = msgs[0].split("\n")
+            loc = next((x.strip() for x in first if "-->" in x), "")
+            undecided.append(f"injected proof text of {fnid} no longer verifies ({first[0].strip()} {loc}): brittle proof or changed behaviour, not decidable from this failure")
         # infrastructure errors anywhere in the group make every result of the group unreliable
         for m in r["cls"]["infra"]:
             undecided.append(f"[{r['group']}] {m}")
